@@ -40,6 +40,88 @@ pub struct Spec {
     /// keep the step multi-party (threshold 2): differing links must then be *rejected* every time
     #[serde(default)]
     pub multi_party: bool,
+    /// the step is delegated by two functionaries (threshold 1), and one of the two sub-layouts
+    /// does not verify (0: inner link missing, 1: expired, 2: inner rule fails, 3: inner link by a stranger)
+    #[serde(default)]
+    pub surplus_sub: Option<u8>,
+}
+
+/// Step `i` delegated by two authorised functionaries; the copy filed by `bad` cannot verify.
+fn build_surplus_sub(spec: &Spec, kind: u8) -> Option<World> {
+    let mut w = spec.world.clone();
+    let n = w.layout.steps.len();
+    let i = spec.step as usize % n;
+    let name = w.layout.steps[i].name.clone();
+    let mut auth = w.layout.steps[i].pubkeys.clone();
+    for k in &w.layout.keys {
+        if auth.len() >= 2 {
+            break;
+        }
+        if !auth.iter().any(|p| key_id_str(p) == key_id_str(k)) {
+            auth.push(k.clone());
+        }
+    }
+    if auth.len() < 2 || prefix8(&auth[0]) == prefix8(&auth[1]) {
+        return None;
+    }
+    w.layout.steps[i].pubkeys = auth.clone();
+    w.layout.steps[i].threshold = 1;
+    w.links.retain(|f| f.step != name);
+    let worker = stranger(7);
+    let products: Artifacts = [("out".to_string(), [("sha256".to_string(), DIGEST_POOL_256[0].to_string())].into())].into();
+    let bad = (spec.variants.len() + spec.creation_order.len()) % 2;
+    for (ci, k) in auth.iter().take(2).enumerate() {
+        let link = LinkSpec {
+            name: "inner".into(),
+            materials: Default::default(),
+            products: products.clone(),
+            env: None,
+            byproducts: ByprodSpec { return_value: Some(0), stdout: Some(String::new()), stderr: Some(String::new()), other: Default::default() },
+            command: vec![],
+        };
+        let mut inner = World {
+            layout: LayoutSpec {
+                expires: 4_000_000_000,
+                readme: String::new(),
+                keys: vec![worker.clone()],
+                steps: vec![StepSpec { name: "inner".into(), threshold: 1, pubkeys: vec![worker.clone()], expected_command: vec![], expected_materials: vec![], expected_products: vec![RuleSpec::Allow("*".into())] }],
+                inspect: vec![],
+            },
+            sigs: vec![SigEntry::good(k)],
+            tamper: None,
+            links: vec![LinkFile { step: "inner".into(), filed_under: worker.clone(), body: Body::Link { link, sigs: vec![SigEntry::good(&worker)], tamper: None } }],
+        };
+        if ci == bad {
+            match kind % 4 {
+                0 => inner.links.clear(),
+                1 => inner.layout.expires = 1_000_000_000,
+                2 => inner.layout.steps[0].expected_products = vec![RuleSpec::Disallow("*".into())],
+                _ => {
+                    let other = stranger(9);
+                    inner.links[0].filed_under = other.clone();
+                    if let Body::Link { sigs, .. } = &mut inner.links[0].body {
+                        *sigs = vec![SigEntry::good(&other)];
+                    }
+                }
+            }
+        }
+        w.links.push(LinkFile { step: name.clone(), filed_under: k.clone(), body: Body::Sub { world: Box::new(inner), placement: Placement::Proper } });
+    }
+    Some(w)
+}
+
+fn copy_tree(from: &std::path::Path, to: &std::path::Path) {
+    std::fs::create_dir_all(to).unwrap();
+    let mut entries: Vec<_> = std::fs::read_dir(from).unwrap().flatten().map(|e| e.path()).collect();
+    entries.sort();
+    for p in entries {
+        let dst = to.join(p.file_name().unwrap());
+        if p.is_dir() {
+            copy_tree(&p, &dst);
+        } else {
+            std::fs::copy(&p, &dst).unwrap();
+        }
+    }
 }
 
 pub fn verify_dir_once(dir: &std::path::Path) -> serde_json::Value {
@@ -56,6 +138,9 @@ pub fn verify_dir_once(dir: &std::path::Path) -> serde_json::Value {
 
 /// Build the world under test: step `i` gets threshold <= 1 and additional, differing, valid links.
 fn build(spec: &Spec) -> Option<World> {
+    if let Some(kind) = spec.surplus_sub {
+        return build_surplus_sub(spec, kind);
+    }
     let mut w = spec.world.clone();
     let n = w.layout.steps.len();
     let i = spec.step as usize % n;
@@ -159,7 +244,7 @@ impl Property for C13 {
     fn rule() -> String {
         "Generated: valid worlds in which one step gets threshold <= 1 and 2-4 validly signed, authorised links that differ (extra product, \
          extra material, other digest, or only command/byproducts), optionally with a rule (DISALLOW variant-*) that only some of them \
-         violate, or with an artifact recorded under two digest algorithms that agree on one and differ on the other, tied by MATCH + DISALLOW; the files of the link directory are created in a generated order. Oracle (invariant over repetitions): R in-process \
+         violate, or with an artifact recorded under two digest algorithms that agree on one and differ on the other, tied by MATCH + DISALLOW; or the step is delegated by two authorised functionaries at threshold 1 and one of the two sub-layouts cannot verify (inner link missing / by a stranger, expired, inner rule failure); the files of the link directory are created in a generated order. Oracle (invariant over repetitions): R in-process \
          repetitions (every HashMap gets fresh hash keys) and P fresh processes give the same verdict and, on success, the same summary \
          link as a JSON value. R=16,P=2 quick (miss probability for a fair flip 2^-17); R=64,P=8 thorough. Non-trivial: at least two counted \
          links of one step differ; distinct by (layout shape, variants, rule trap, step position)."
@@ -181,8 +266,9 @@ impl Property for C13 {
             proptest::collection::vec(any::<u8>(), 0..6),
             prop_oneof![3 => Just(false), 1 => Just(true)],
             prop_oneof![3 => Just(false), 1 => Just(true)],
+            prop_oneof![5 => Just(None), 1 => (0u8..4).prop_map(Some)],
         )
-            .prop_map(|((world, owners), step, variants, rule_trap, creation_order, two_digest_match, multi_party)| Spec { world, owners, step, variants, rule_trap, creation_order, two_digest_match, multi_party })
+            .prop_map(|((world, owners), step, variants, rule_trap, creation_order, two_digest_match, multi_party, surplus_sub)| Spec { world, owners, step, variants, rule_trap, creation_order, two_digest_match, multi_party, surplus_sub })
             .prop_filter("buildable", |s| build(s).is_some())
             .boxed()
     }
@@ -205,6 +291,10 @@ impl Property for C13 {
             let p = names.remove(k);
             std::fs::copy(&p, links.join(p.file_name().unwrap())).unwrap();
         }
+        // sub-directories (link directories of sub-layouts)
+        for p in std::fs::read_dir(&stage).unwrap().flatten().map(|e| e.path()).filter(|p| p.is_dir()) {
+            copy_tree(&p, &links.join(p.file_name().unwrap()));
+        }
         std::fs::write(dir.join("__layout.json"), &info.layout_text).unwrap();
         std::fs::write(dir.join("__keys.json"), serde_json::to_string(&spec.owners).unwrap()).unwrap();
         let j = judge(&w, &info, &spec.owners, now, true);
@@ -220,6 +310,9 @@ impl Property for C13 {
         }
         if spec.multi_party {
             o.class("multi-party-with-differing-links");
+        }
+        if let Some(k) = spec.surplus_sub {
+            o.class(format!("surplus-failing-sub-layout:{}", k % 4));
         }
         let mut outcomes: Vec<serde_json::Value> = vec![];
         for _ in 0..r_reps {
@@ -239,7 +332,7 @@ impl Property for C13 {
         let oks = outcomes.iter().filter(|v| v["ok"] == true).count();
         o.class(if oks == outcomes.len() { "verdict:always-ok" } else if oks == 0 { "verdict:always-err" } else { "verdict:flips" });
         if oks != 0 && oks != outcomes.len() {
-            o.fail(format!("C13/verdict-flips/{}", if spec.two_digest_match { "two-digest-match" } else if spec.rule_trap { "rule-on-differing-links" } else { "other" }),
+            o.fail(format!("C13/verdict-flips/{}", if spec.surplus_sub.is_some() { "surplus-failing-sub-layout" } else if spec.two_digest_match { "two-digest-match" } else if spec.rule_trap { "rule-on-differing-links" } else { "other" }),
                 format!("{} of {} repetitions returned Ok, the others Err; first Err: {:?}", oks, outcomes.len(), outcomes.iter().find(|v| v["ok"] != true).map(|v| v["err"].clone())),
                 "the same verdict every time");
         } else if oks == outcomes.len() {
@@ -249,8 +342,8 @@ impl Property for C13 {
                 o.fail(format!("C13/summary-differs/{}", what), format!("summaries differ between repetitions: {} vs {}", first, other["summary"]), "the same summary every time");
             }
         }
-        if j.ambiguous || spec.two_digest_match || spec.multi_party {
-            o.nontrivial(format!("{}|{:?}|{}|{}|{}|{}", w.layout.steps.len(), spec.variants, spec.rule_trap, spec.step as usize % w.layout.steps.len(), spec.two_digest_match, spec.multi_party));
+        if j.ambiguous || spec.two_digest_match || spec.multi_party || spec.surplus_sub.is_some() {
+            o.nontrivial(format!("{}|{:?}|{}|{}|{}|{}|{:?}", w.layout.steps.len(), spec.variants, spec.rule_trap, spec.step as usize % w.layout.steps.len(), spec.two_digest_match, spec.multi_party, spec.surplus_sub));
         }
         let _ = std::fs::remove_dir_all(&dir);
         o
